@@ -359,7 +359,8 @@ namespace OP2Utility::Archive
 
 		if (m_IndexTableLength > 0) {
 			m_IndexEntries.resize(m_IndexEntryCount);
-			archiveFileReader.Read(m_IndexEntries.data(), m_IndexTableLength);
+			// Read whole entries only: the section length need not be a multiple of the entry size
+			archiveFileReader.Read(m_IndexEntries);
 		}
 
 		if (m_HeaderLength < m_StringTableLength + m_IndexTableLength + 24) {
